@@ -83,3 +83,37 @@ Proof.
   { intros c. apply eq_true_iff_eq. rewrite !existsb_exists. split; intros [x [Hx Hv]]; exists x; (split; [|exact Hv]); apply in_of_cat; apply in_of_cat in Hx; destruct Hx as [Hx Hc]; (split; [apply H; exact Hx|exact Hc]). }
   unfold passes. rewrite E. tauto.
 Qed.
+
+(* which previews are printed: the categories that are shown and whose changes alter the text of some file - approved or not *)
+Lemma loop_reported : forall cf pending cats used reported c,
+  NoDup cats ->
+  (In c (snd (loop cf pending cats used reported)) <->
+   In c reported \/ (In c cats /\ shown cf c = true /\ existsb ch_visible (of_cat c pending) = true)).
+Proof.
+  intros cf pending cats. induction cats as [|c0 r IH]; intros used reported c Hnd; cbn [loop snd].
+  - split; [intros H; left; exact H|intros [H|[[] _]]; exact H].
+  - inversion Hnd as [|? ? Hni Hnd']; subst.
+    assert (Hskip : (shown cf c0 = true /\ existsb ch_visible (of_cat c0 pending) = true -> False) -> forall used',
+              (In c (snd (loop cf pending r used' reported)) <-> In c reported \/ (In c (c0 :: r) /\ shown cf c = true /\ existsb ch_visible (of_cat c pending) = true))).
+    { intros Hn used'. rewrite (IH used' reported c Hnd'). cbn [In]. split; [intros [H|[H1 H2]]; [left; exact H|right; split; [right; exact H1|exact H2]]|].
+      intros [H|[[H1|H1] H2]]; [left; exact H|subst c0; exfalso; exact (Hn H2)|right; split; [exact H1|exact H2]]. }
+    assert (Hadd : shown cf c0 = true -> existsb ch_visible (of_cat c0 pending) = true -> forall used',
+              (In c (snd (loop cf pending r used' (reported ++ [c0]))) <-> In c reported \/ (In c (c0 :: r) /\ shown cf c = true /\ existsb ch_visible (of_cat c pending) = true))).
+    { intros Hs Hv used'. rewrite (IH used' (reported ++ [c0]) c Hnd'). rewrite in_app_iff. cbn [In]. split.
+      - intros [[H|[H|[]]]|[H1 H2]]; [left; exact H|subst c0; right; split; [left; reflexivity|split; assumption]|right; split; [right; exact H1|exact H2]].
+      - intros [H|[[H1|H1] H2]]; [left; left; exact H|left; right; left; exact H1|right; split; [exact H1|exact H2]]. }
+    destruct (of_cat c0 pending) as [|x xs] eqn:Eo.
+    + apply Hskip. cbn [existsb]. intros [_ H]. discriminate.
+    + destruct (shown cf c0) eqn:Es; cbn [negb]; [|apply Hskip; intros [H _]; discriminate].
+      destruct (panels c0 pending) as [|p ps] eqn:Ep.
+      * apply Hskip. apply panels_nil in Ep. rewrite Eo in Ep. intros [_ H]. congruence.
+      * assert (Hv : existsb ch_visible (of_cat c0 pending) = true).
+        { destruct (existsb ch_visible (of_cat c0 pending)) eqn:E; [reflexivity|]. apply panels_nil in E. congruence. }
+        rewrite Eo in Hv. destruct (approve cf c0); apply Hadd; try reflexivity; rewrite ?Eo; exact Hv.
+Qed.
+Theorem session_reported_iff : forall cf pending c,
+  In c (snd (session cf pending)) <-> shown cf c = true /\ existsb ch_visible (of_cat c pending) = true.
+Proof.
+  intros cf pending c. unfold session. rewrite (loop_reported cf pending all_cats [] [] c all_cats_nodup). cbn [In].
+  split; [intros [[]|[_ H]]; exact H|intros H; right; split; [apply in_all_cats|exact H]].
+Qed.
